@@ -801,3 +801,100 @@ Proof.
     rewrite strip_brackets_no_lbr; [reflexivity|]. apply (forallb_notin _ _ _ Hreg). reflexivity.
   - rewrite (parse_host_bracket b port _ Hb Hp Hph). rewrite strip_brackets_bracketed. reflexivity.
 Qed.
+
+(* ================================================================== no backslash in an accepted authority *)
+(* WHATWG readers treat a backslash like a slash in http(s) URLs. Go rejects every authority
+   that contains one, so that difference cannot move the authority boundary of an accepted URI. *)
+Definition c_bslash : N := 92.
+
+Lemma unescape_hostish_no_bslash m s : is_hostish m = true -> In c_bslash s -> unescape m s = None.
+Proof.
+  intros Hm. induction s as [s IH] using str_strong_ind. intros Hin.
+  destruct s as [|c s]; [destruct Hin|].
+  destruct (N.eq_dec c c_pct) as [->|Hne].
+  - destruct Hin as [Hc|Hin]; [discriminate Hc|].
+    destruct s as [|h1 [|h2 s]]; [reflexivity | reflexivity|].
+    rewrite unescape_pct. unfold unescape_pct_body.
+    destruct (is_hex h1 && is_hex h2) eqn:Hh; [|reflexivity].
+    destruct Hin as [->|[->|Hin]]; [discriminate Hh | rewrite andb_comm in Hh; discriminate Hh|].
+    rewrite (IH s); [|simpl; lia | exact Hin]. cbv zeta.
+    repeat match goal with |- context [if ?b then None else _] => destruct b; [reflexivity|] end. reflexivity.
+  - rewrite unescape_other by exact Hne. destruct Hin as [->|Hin].
+    + destruct m; try discriminate Hm; reflexivity.
+    + rewrite (IH s); [|simpl; lia | exact Hin].
+      destruct (is_hostish m && (c <? 128) && should_escape c m); reflexivity.
+Qed.
+
+Lemma parse_host_no_bslash hp host : parse_host hp = Some host -> ~ In c_bslash hp.
+Proof.
+  intros H Hin. unfold parse_host in H.
+  assert (Hall : unescape MHost hp = None) by (apply unescape_hostish_no_bslash; [reflexivity | exact Hin]).
+  destruct (has_prefix hp [c_lbr]).
+  - destruct (cut_last c_rbr hp) as [[before cp]|] eqn:E; [|discriminate].
+    destruct (negb (valid_optional_port cp)); [discriminate|].
+    apply cut_last_some in E as [E _].
+    destruct (index_pct25 before) as [[h1 h2]|] eqn:Ez; [|congruence].
+    apply index_pct25_spec in Ez. subst before. subst hp.
+    apply in_app_or in Hin as [Hin|Hin].
+    + apply in_app_or in Hin as [Hin|Hin].
+      * rewrite (unescape_hostish_no_bslash MHost h1 eq_refl Hin) in H. discriminate.
+      * rewrite (unescape_hostish_no_bslash MZone h2 eq_refl Hin) in H. destruct (unescape MHost h1); discriminate.
+    + rewrite (unescape_hostish_no_bslash MHost (c_rbr :: cp) eq_refl Hin) in H.
+      destruct (unescape MHost h1); [|discriminate]. destruct (unescape MZone h2); discriminate.
+  - destruct (cut_last c_colon hp) as [[a b]|]; [|congruence].
+    destruct (forallb is_digit b); [congruence | discriminate].
+Qed.
+
+Theorem accepted_authority_no_backslash u url sch ui h port rest :
+  go_parse u = Some url -> u_host url <> [] -> rfc_split u sch ui h port rest ->
+  ~ In c_bslash (opt_userinfo ui ++ h ++ opt_port port).
+Proof.
+  intros Hgo Hhost Hsplit. destruct Hsplit as [sch ui h port rest Hs Hu Hh Hp Hr].
+  set (A := opt_userinfo ui ++ h ++ opt_port port).
+  assert (HA : forallb not_end A = true).
+  { unfold A. rewrite !forallb_app'. rewrite (host_not_end h Hh), (port_not_end port Hp), andb_true_r.
+    destruct ui as [s|]; simpl; [|reflexivity]. rewrite forallb_app'. simpl. rewrite andb_true_r.
+    exact (Hu s eq_refl). }
+  replace (opt_scheme sch ++ [c_slash; c_slash] ++ opt_userinfo ui ++ h ++ opt_port port ++ rest)
+    with ((opt_scheme sch ++ [c_slash; c_slash] ++ A) ++ rest) in Hgo
+    by (unfold A; rewrite <- !app_assoc; reflexivity).
+  assert (Hnh : ~ In c_hash (opt_scheme sch ++ [c_slash; c_slash] ++ A)).
+  { intros Hin. apply in_app_or in Hin as [Hin|Hin].
+    - destruct sch as [s|]; [|destruct Hin]. revert Hin. apply scheme_no; [exact (Hs s eq_refl) | reflexivity | discriminate].
+    - destruct Hin as [Hc|[Hc|Hc]]; try discriminate. revert Hc. apply not_end_no; [exact HA | reflexivity]. }
+  unfold go_parse in Hgo. rewrite (cut_app_left c_hash _ rest Hnh) in Hgo.
+  pose proof (cut_starts c_hash [c_slash; c_qmark] rest (rest_ok_starts rest Hr)) as Hr0.
+  set (rest0 := fst (cut c_hash rest)) in *. clearbody rest0.
+  destruct (parse_nofrag ((opt_scheme sch ++ [c_slash; c_slash] ++ A) ++ rest0)) as [u'|] eqn:Epn; [|discriminate].
+  assert (u' = url).
+  { destruct (snd (cut c_hash rest)) as [[|f0 f]|]; try (inversion Hgo; reflexivity).
+    destruct (unescape MFragment (f0 :: f)); [inversion Hgo; reflexivity | discriminate]. }
+  subst u'. clear Hgo.
+  unfold parse_nofrag in Epn. destruct (has_ctl _); [discriminate|].
+  destruct (str_eqb _ [42]) eqn:Estar.
+  { apply str_eqb_eq in Estar. apply (f_equal (@length N)) in Estar. rewrite !app_length in Estar. simpl in Estar. lia. }
+  assert (Hpa : exists s0, parse_after_scheme s0 ([c_slash; c_slash] ++ A ++ rest0) = Some url).
+  { destruct sch as [s|]; cbn [opt_scheme] in Epn.
+    - replace ((((s ++ [c_colon]) ++ [c_slash; c_slash] ++ A) ++ rest0))
+        with (s ++ c_colon :: ([c_slash; c_slash] ++ A ++ rest0)) in Epn
+        by (rewrite <- !app_assoc; reflexivity).
+      rewrite (get_scheme_complete s _ (Hs s eq_refl)) in Epn. exists s. exact Epn.
+    - cbn [app] in Epn. change (get_scheme (c_slash :: c_slash :: A ++ rest0)) with SNone in Epn.
+      exists []. exact Epn. }
+  destruct Hpa as [s0 Hpa].
+  destruct (parse_after_scheme_authority s0 A rest0 url HA Hr0 Hpa Hhost) as [user Hauth].
+  pose proof (parse_authority_host ui h port user (u_host url) Hu Hh Hp Hauth) as Hph.
+  pose proof (parse_host_no_bslash _ _ Hph) as Hhp.
+  unfold A. intros Hin. apply in_app_or in Hin as [Hin|Hin]; [|exact (Hhp Hin)].
+  (* the userinfo part: validUserinfo admits no backslash *)
+  destruct ui as [s|]; [|destruct Hin]. cbn [opt_userinfo] in Hin, Hauth.
+  apply in_app_or in Hin as [Hin|[Hin|[]]]; [|discriminate Hin].
+  unfold A in Hauth. cbn [opt_userinfo] in Hauth.
+  unfold parse_authority in Hauth. rewrite <- app_assoc in Hauth. cbn [app] in Hauth.
+  assert (Hna : ~ In c_at (h ++ opt_port port)).
+  { intros Hc. apply in_app_or in Hc as [Hc|Hc]; [exact (host_no_at h Hh Hc) | exact (port_no_at port Hp Hc)]. }
+  rewrite cut_last_app in Hauth by exact Hna. cbv beta iota zeta in Hauth.
+  destruct (parse_host (h ++ opt_port port)); [|discriminate].
+  destruct (valid_userinfo s) eqn:Ev; [|discriminate].
+  unfold valid_userinfo in Ev. rewrite forallb_forall in Ev. specialize (Ev _ Hin). discriminate Ev.
+Qed.
